@@ -64,7 +64,7 @@ def main():
         r = {}
         conn = pq.JaxConnector()
         f = lambda th: jnp.real(cc.run(spec, th, conn, jnp))  # noqa: E731
-        for mode in ("jacrev", "jit_jacfwd"):
+        for mode in case.get("modes", ("jacrev", "jit_jacfwd")):
             try:
                 if mode == "jacrev":
                     val = f(theta)
